@@ -144,15 +144,19 @@ TEXTS['C05'] = {
     'technique': "Lean 4 proof (inductive invariants over a transition system) + trace validation + explorer oracle",
 }
 TEXTS['C06'] = {
-    'text': "Lean theorems over every run (hence every prefix = crash point) of the file-system model of a download to a path: "
-            "the destination holds previous-or-complete content at all times, a failure keeps the previous content, a cancel "
-            "yields previous or (only after the rename) complete, no temporary file after rename/cleanup, no write after the "
-            "cleanup, publication only when every queued write was executed. Partial: the model's guards (rename is the final "
-            "io task, runs only when nothing failed and all writes ran) are mechanisms established by C10 FIFO / Xfer-style "
-            "reasoning and not derived from one combined model; the explorer inspects the real directory at every "
-            "scheduling point of every run (manager) and judges the legacy front end sequentially; the process pool is under C19.",
+    'text': "Lean theorems over every run (hence every prefix = crash point) of the file-system model Fs2 of a download to a path "
+            "(write tasks queued by the GET tasks; each tests done(), opens the temporary file, writes; failures and cancels land "
+            "anywhere, also between the test and the write; the final task is picked only after all GET tasks ended and all writes "
+            "were executed or skipped; cleanups only when no write is queued or running): the destination holds previous-or-complete "
+            "content at all times, a failure keeps the previous content, a transfer that had failed when the final task tested "
+            "done() is never renamed, a cancel yields previous or (only after the rename) complete, no temporary file after "
+            "rename / cleanup and never again after the cleanup, no write ends after the cleanup or the rename, publication only "
+            "when nothing is missing. The real manager's runs are replayed on the model label by label (trace validation, "
+            "observed from outside); the explorer additionally inspects the real directory at every scheduling point. Partial: the "
+            "guards of the model are what the FIFO io executor and the task dependencies establish (C10, Xfer) — they are validated "
+            "by the traces, not derived from one combined model; the legacy front end is judged end to end, the process pool is C19.",
     'note': COMMON_NOTE + M2_NOTE + "POSIX rename atomicity is assumed.",
-    'technique': "Lean 4 proof (invariant over an event model) + explorer with directory inspection at every scheduling point",
+    'technique': "Lean 4 proof (invariant over the Fs2 event model) + trace validation of the real download tasks + explorer with directory inspection at every scheduling point",
 }
 TEXTS['C07'] = {
     'text': "Lean theorems: a cancel on an unfinished transfer stores the given error and makes it cancelled (Coord), the status "
